@@ -117,6 +117,23 @@ func (s *svc) Shutdown(ctx context.Context) error {
 		}
 		return base
 	case oPanic:
+		// what is panicked with rotates: a string, an error, a genuine runtime.Error (nil map write, nil
+		// dereference, index out of range), a value of some other type
+		switch s.idx % 6 {
+		case 1:
+			panic(fmt.Errorf("service %d panicked", s.idx))
+		case 2:
+			var m map[string]int
+			m["x"] = s.idx
+		case 3:
+			var p *svc
+			_ = p.idx
+		case 4:
+			var xs []int
+			_ = xs[s.idx]
+		case 5:
+			panic(struct{ n int }{s.idx})
+		}
 		panic(fmt.Sprintf("service %d panicked", s.idx))
 	case oSlow:
 		<-ctx.Done()
@@ -154,7 +171,10 @@ func runSignal(c sigCase) (what string, checks int) {
 		}
 		log := &evlog{}
 		n := &fakeNotifier{}
-		h := service.NewSignalHandler(&service.SignalHandlerConfig{SignalNotifier: n, Logger: quiet, ShutdownTimeout: 5 * time.Second})
+		shc := &service.SignalHandlerConfig{SignalNotifier: n, Logger: quiet, ShutdownTimeout: 5 * time.Second}
+		h := service.NewSignalHandler(shc)
+		// the config value is the caller's and is reused right away
+		*shc = service.SignalHandlerConfig{SignalNotifier: &fakeNotifier{}, Logger: nil, ShutdownTimeout: time.Nanosecond}
 		if n.c == nil {
 			fail("the handler did not subscribe to signals")
 			return
@@ -455,6 +475,28 @@ func (h *fakeErrHandler) Handle(_ context.Context, err error) {
 	h.log.add("handle %s", err.Error())
 }
 
+// poison collaborators: put into the caller's config value after NewRefreshWorker has returned; a worker that uses
+// them shows it in the event log.
+type poisonRefresher struct{ log *evlog }
+
+func (p poisonRefresher) Refresh(context.Context) error {
+	p.log.add("the worker called the Refresher that the caller put into its config value AFTER NewRefreshWorker")
+	return errors.New("poison")
+}
+
+type poisonHandler struct{ log *evlog }
+
+func (p poisonHandler) Handle(context.Context, error) {
+	p.log.add("the worker called the ErrorHandler that the caller put into its config value AFTER NewRefreshWorker")
+}
+
+type poisonCons struct{ log *evlog }
+
+func (p poisonCons) New(parent context.Context) (context.Context, context.CancelFunc) {
+	p.log.add("the worker called the ContextConstructor that the caller put into its config value AFTER NewRefreshWorker")
+	return context.WithCancel(parent)
+}
+
 type refCase struct {
 	Ticks      []bool `json:"tick_fails"` // one refresh per tick; true = Refresh returns an error
 	OnShutdown bool   `json:"refresh_on_shutdown"`
@@ -528,6 +570,16 @@ func runRefresh(c refCase) (what string, checks int) {
 			conf.ErrorHandler = &fakeErrHandler{log}
 		}
 		w := service.NewRefreshWorker(conf)
+		// the configuration value is the caller's: it is reused for the next worker (other refresher, other
+		// handler, the final refresh switched) as soon as the constructor has returned
+		conf.Refresher = poisonRefresher{log}
+		conf.RefreshOnShutdown = !c.OnShutdown
+		if !c.NilOpt {
+			conf.ErrorHandler = poisonHandler{log}
+			conf.ContextConstructor = poisonCons{log}
+		} else {
+			conf.ErrorHandler, conf.ContextConstructor = poisonHandler{log}, nil
+		}
 		if err := w.Start(startCtx); err != nil {
 			fail("Start returned %v", err)
 			return
